@@ -1,24 +1,37 @@
 #!/usr/bin/env python3
-# Runs the check of its property on every archived seeded change (apply to /repo, run, revert) and records the result in seeded/<id>/meta.json
-import json, os, subprocess, sys, glob
-if subprocess.run(['git','-C','/repo','status','--porcelain'],capture_output=True,text=True).stdout.strip():
-    print("REFUSED: /repo has uncommitted changes"); sys.exit(4)
+# Runs the check of its property on every archived seeded change and records the result in seeded/<id>/meta.json.
+# Works on scratch copies (a worktree of /repo's HEAD and a copy of /verif) so that /repo and /verif/evidence are
+# not touched: usage: seeded_report.py [ids or property ids...]
+import json, os, subprocess, sys, glob, shutil
+WT='/tmp/seedwt'; VC='/tmp/seedverif'
 only = sys.argv[1:]
-rows=[]
-for d in sorted(glob.glob('/verif/seeded/*')):
-    sid=os.path.basename(d)
-    if only and sid not in only and sid.split('-')[0] not in only: continue
-    meta=json.load(open(d+'/meta.json'))
-    prop=meta['property']
-    if subprocess.run(['git','-C','/repo','apply',d+'/patch.diff']).returncode!=0:
-        print(sid,'patch does not apply'); continue
-    try:
-        r=subprocess.run(['/verif/check',prop,'quick'],capture_output=True,text=True)
-        viol=[l for l in r.stdout.split('\n') if l.startswith('VIOLATION')]
-        obl=[l.strip() for l in r.stdout.split('\n') if l.startswith('  obligation')]
-        conf=[v for v in viol if 'no-failing-input-found' not in v]
-        meta['detected_by']={'check':prop,'exit':r.returncode,'violations':len(viol),'replay_confirmed':len(conf),'first_obligation':(obl[0] if obl else '')[:200]}
-        json.dump(meta,open(d+'/meta.json','w'),indent=1)
-        print(f"{sid}: exit={r.returncode} violations={len(viol)} replay-confirmed={len(conf)} {(obl[0] if obl else '')[:110]}")
-    finally:
-        subprocess.run(['git','-C','/repo','checkout','--','.'])
+subprocess.run(['git','-C','/repo','worktree','remove','--force',WT],capture_output=True)
+shutil.rmtree(WT,ignore_errors=True); shutil.rmtree(VC,ignore_errors=True)
+subprocess.run(['git','-C','/repo','worktree','prune'])
+if subprocess.run(['git','-C','/repo','worktree','add','-f','--detach',WT,'HEAD'],capture_output=True).returncode!=0:
+    print('cannot create worktree'); sys.exit(3)
+subprocess.run(['rsync','-a','--exclude','.git','--exclude','replays','/verif/',VC+'/'])
+try:
+    for d in sorted(glob.glob('/verif/seeded/*')):
+        sid=os.path.basename(d)
+        if only and sid not in only and sid.split('-')[0] not in only: continue
+        meta=json.load(open(d+'/meta.json'))
+        prop=meta['property']
+        if subprocess.run(['git','-C',WT,'apply',d+'/patch.diff'],capture_output=True).returncode!=0:
+            meta['detected_by']={'check':prop,'note':'patch no longer applies to the current tree (the code it changes was repaired by a later fix commit)'}
+            json.dump(meta,open(d+'/meta.json','w'),indent=1)
+            print(sid,'patch does not apply'); continue
+        try:
+            r=subprocess.run([VC+'/bin/vcheck','-verif',VC,'-root',WT,'-prop',prop,'-tier','quick'],capture_output=True,text=True,cwd=VC)
+            viol=[l for l in r.stdout.split('\n') if l.startswith('VIOLATION')]
+            obl=[l.strip() for l in r.stdout.split('\n') if l.startswith('  obligation')]
+            conf=[v for v in viol if 'no-failing-input-found' not in v]
+            meta['detected_by']={'check':prop,'exit':r.returncode,'violations':len(viol),'replay_confirmed':len(conf),'first_obligation':(obl[0] if obl else '')[:200]}
+            json.dump(meta,open(d+'/meta.json','w'),indent=1)
+            print(f"{sid}: exit={r.returncode} violations={len(viol)} replay-confirmed={len(conf)} {(obl[0] if obl else '')[:110]}", flush=True)
+        finally:
+            subprocess.run(['git','-C',WT,'checkout','--','.'])
+            subprocess.run(['git','-C',WT,'clean','-fdq'])
+finally:
+    subprocess.run(['git','-C','/repo','worktree','remove','--force',WT],capture_output=True)
+    shutil.rmtree(VC,ignore_errors=True)
